@@ -131,6 +131,12 @@ OpsAreSubsequences == kind = "ops" => \A c \in OpCases(T) : Ascending(c[4]) /\ (
 \* trimming and removal partition the track
 Complement == kind = "ops" => \A k \in 0..(Len(T) + 2) :
                  Len(DropFirst(T, k)) = (IF k >= Len(T) THEN 0 ELSE Len(T) - k) /\ Len(DropLast(T, k)) = Len(DropFirst(T, k))
+\* removal is by POSITION: whatever follows the designated part of the track (the track's own first observation closing a ring,
+\* the track itself a second time) stays, even when it is the same observation as a removed one
+Range(a, b) == [p \in 1..(b - a + 1) |-> a + p - 1]
+RemoveByPosition == kind = "ops" => \A S \in Subsets0(Len(T)) :
+                       /\ Len(T) >= 1 => RemoveIdx(T \o <<T[1]>>, S) = RemoveIdx(T, S) \o <<Len(T) + 1>>
+                       /\ RemoveIdx(T \o T, S) = RemoveIdx(T, S) \o Range(Len(T) + 1, 2 * Len(T))
 \* the binary search terminates with an index that keeps the track sorted, for every instant
 SearchKeepsSorted == kind = "search" => \A t \in Times \cup {-1, 99} :
                         LET k == InsertionIndex(T, t) IN k \in 0..Len(T) /\ IsSorted(InsertAt(T, k, t))
